@@ -237,7 +237,17 @@ class MapEngine:
                         "kw": {"model_key": rng.choice(E_MODELS)}})
             ops.append({"op": "rate", "curve": j, "kw": rng.choice(
                 [{}, {"regressor": "Decision Tree"}])})
-            ev = ["refused", "pipeline", "refit", "edit", "none"][index % 5]
+            if rng.random() < 0.5:
+                ops.append({"op": "refit_params", "curve": j,
+                            "factor": rng.choice([0.5, 2.0])})
+            elif rng.random() < 0.6:
+                ops.append({"op": "fit", "curve": j, "prep": False,
+                            "kw": {"range_x": [-1e-6, 2e-7]}})
+                ops.append({"op": "edit", "curve": j, "key": "range_x",
+                            "value": None, "nudge": rng.choice([8e-9,
+                                                                -6e-9])})
+            ev = ["refused", "pipeline", "refit", "edit", "none",
+                  "none"][index % 6]
             if ev == "refused":
                 st_, o_ = gen_invalid_request(rng)
                 ops.append({"op": "prep", "curve": j, "steps": st_,
@@ -334,6 +344,7 @@ class MapEngine:
         states = set()
         violation = None
         executed = 0
+        touched = self._touched = set()
         oracle_checks = 0
         qm = None
         grp = None
@@ -739,14 +750,39 @@ class MapEngine:
                             ref[k]["hash"] = d.fit_properties.get("hash")
                         if read_once:
                             changed_after_read = True
+                    elif kind == "refit_params":
+                        # documented workflow on a map curve: get the
+                        # parameters, edit them in place, fit again
+                        k = op["curve"] % len(grp)
+                        d = grp[k]
+                        before = d.fit_properties.get("hash")
+                        prep_before = prep_state(d)
+                        try:
+                            p_ = d.get_initial_fit_parameters()
+                            p_["E"].set(value=float(p_["E"].value)
+                                        * op["factor"], vary=False)
+                            d.fit_model(params_initial=p_)
+                        except _caught():
+                            pass
+                        self.after_change(d, ref[k], before, prep_before)
+                        if read_once:
+                            changed_after_read = True
                     elif kind == "edit":
                         k = op["curve"] % len(grp)
                         d = grp[k]
                         before = d.fit_properties.get("hash")
                         prep_before = prep_state(d)
                         try:
-                            d.fit_properties[op["key"]] = copy.deepcopy(
-                                op["value"])
+                            val_ = copy.deepcopy(op["value"])
+                            if op.get("nudge") and op["key"] == "range_x":
+                                # the stored interval moved by nanometres
+                                cur_ = d.fit_properties.get("range_x",
+                                                            [0, 0])
+                                val_ = [float(cur_[0]) + op["nudge"],
+                                        float(cur_[1])]
+                            d.fit_properties[op["key"]] = val_
+                            if op.get("nudge"):
+                                d.fit_model()
                         except _caught():
                             pass
                         self.after_change(d, ref[k], before, prep_before)
@@ -844,6 +880,28 @@ class MapEngine:
                         probes["pixel with rating"] += 1
             if violation:
                 break
+            # "current" means: of the settings the curve holds now. One
+            # curve per map request is refitted from scratch (reloaded
+            # from its file, stored settings applied once)
+            cand = [d for d in grp if d.fit_properties.get("success")
+                    and "hash" in d.fit_properties]
+            if cand and not violation:
+                d = cand[(i + len(cand)) % len(cand)]
+                recent_ = [x for x in cand if id(x) in touched]
+                if recent_:
+                    # prefer a curve that was worked on since the last look
+                    d = recent_[-1]
+                touched.clear()
+                v = self.check_current(d, feats, i)
+                oracle_checks += 1
+                if v == "skip":
+                    pass
+                elif v:
+                    violation = v
+                else:
+                    probes["map curve refitted from scratch"] += 1
+            if violation:
+                break
             ok1 = digest_array(got) == digest_array(exp) and \
                 nwarn == exp_warn
             ok2 = digest_array(got) == digest_array(alt) and \
@@ -877,9 +935,40 @@ class MapEngine:
                 "states": sorted(states), "nontrivial": nontrivial,
                 "oracle_checks": oracle_checks, "ops_executed": executed}
 
-    @staticmethod
-    def after_change(d, r, hash_before, prep_before):
+    def check_current(self, d, feats, i):
+        import nanite
+        from .engine_curve import stored_settings
+        S = stored_settings(d)
+        try:
+            with warnings.catch_warnings():
+                warnings.simplefilter("ignore")
+                g2 = nanite.IndentationGroup(d.path)
+                f = [c for c in g2 if c.enum == d.enum][0]
+                if "preprocessing" in S:
+                    f.apply_preprocessing(
+                        S["preprocessing"],
+                        S.get("preprocessing_options", {}))
+                f.fit_model(**{k: v for k, v in S.items() if k not in (
+                    "preprocessing", "preprocessing_options")})
+        except Exception:
+            return "skip"
+        a = d.fit_properties.get("params_fitted")
+        b = f.fit_properties.get("params_fitted")
+        if a is None or b is None:
+            return "skip"
+        for k in ("E", "contact_point"):
+            if k in a and k in b and a[k].value != b[k].value:
+                return make_violation(
+                    self.prop, "L2", "not-the-current-fit",
+                    dict(feats, param=k),
+                    f"the curve at enum {d.enum} shows {k}={a[k].value!r}; "
+                    f"the same curve reloaded and fitted with the settings "
+                    f"it stores gives {b[k].value!r}", i)
+        return None
+
+    def after_change(self, d, r, hash_before, prep_before):
         """Reference bookkeeping for the rating of one curve."""
+        self._touched.add(id(d))
         prep_after = prep_state(d)
         raw_after = core.digest([d.fit_properties.get("preprocessing"),
                                  d.fit_properties.get(
